@@ -250,6 +250,22 @@ def m_vec_truncate(ex, a, callee, canon):
         if k is not None:
             del v.f[k:]
         return UNIT
+    if isinstance(v, Bytes):
+        items = ex.seq_items(v.s)
+        if items is not None:
+            k = ex.concretize(n.t, range(len(items) + 1))
+            if k is not None:
+                p.set(Bytes(seq_of(items[:k])))
+            return UNIT
+        # a byte string of symbolic length: the result is an opaque string (a prefix, content not tracked) of length min(len, n)
+        L = ex.seq_len(v.s)
+        s2 = ex.fresh("truncated", SEQ)
+        if not hasattr(ex, "len_vars"):
+            ex.len_vars = {}
+        ex.len_vars[s2.get_id()] = z3.If(z3.ULT(n.t, L), n.t, L)
+        ex.__dict__.setdefault("_keep_alive", []).append(s2)
+        p.set(Bytes(s2))
+        return UNIT
     raise Unsupported(f"truncate on {v!r}")
 
 
